@@ -262,3 +262,23 @@ Definition drv_draw (q : list T) (us : list T) : res (list Z) :=
 
 End Generic.
 
+
+(* DiscreteRV as an object: the state is Q = cumsum(q) (the setter of q recomputes it);
+   operations: assignment drv.q = q', and draw(k) with the k uniforms drawn *)
+Section DiscreteRVOps.
+Context {T : Type} `{Num T}.
+Inductive drv_op := DSetQ (q : list T) | DDraw (us : list T).
+
+Definition drv_draw_Q (Q : list T) (us : list T) : res (list Z) :=
+  bind (rdw Q (-1)) (fun c =>
+  let scale := if nltb none_ c then none_ else c in
+  Ok (map (fun u => np_searchsorted_right Q (nmul u scale)) us)).
+
+(* fold over the operations: (current Q, outputs of the draws so far) *)
+Definition drv_run (q0 : list T) (ops : list drv_op) : list (res (list Z)) :=
+  snd (fold_left (fun st op =>
+                    match op with
+                    | DSetQ q => (cumsum q, snd st)
+                    | DDraw us => (fst st, snd st ++ [drv_draw_Q (fst st) us])
+                    end) ops (cumsum q0, [])).
+End DiscreteRVOps.
